@@ -3,3 +3,4 @@ pub mod nan;
 pub mod order;
 pub mod quant;
 pub mod sel;
+pub mod skip;
